@@ -509,12 +509,12 @@ theorem deliverRow_cancInv2 (c : Cfg) (s : State) (r : Row) (ack : Bool) (k : Op
                   simp only [raises, hm, completeWorkflowRaises, hnc, hfs, Bool.not_false, Bool.true_and, Bool.not_eq_false'] at hr
                   exact hr
                 have htx : (handle c s { x with attempts := x.attempts + 1 }).1 =
-                    [[.setWf st, .mark x.id] ++ (if st != .succeeded then (List.range c.n).filter (fun i => (s.stage i).status == .running) else []).map
+                    [[.setWf st, .mark x.id] ++ (if st != .succeeded then (List.range c.n).filter (fun i => (s.stage i).status == .running || (s.canceled && !(s.stage i).status.isComplete)) else []).map
                       (fun i => Eff.push (.cancelStage i))] := by
                   simp [handle, hm, hCompleteWorkflow, hnc, hfs, hleg]
                 rcases takeTxns_one _ k with hfull | ⟨hk, h0⟩
                 · left
-                  have hP : partEffs c s x k = [.setWf st, .mark x.id] ++ (if st != .succeeded then (List.range c.n).filter (fun i => (s.stage i).status == .running) else []).map
+                  have hP : partEffs c s x k = [.setWf st, .mark x.id] ++ (if st != .succeeded then (List.range c.n).filter (fun i => (s.stage i).status == .running || (s.canceled && !(s.stage i).status.isComplete)) else []).map
                       (fun i => Eff.push (.cancelStage i)) := by
                     unfold partEffs; rw [htx, hfull]; simp
                   rw [sh.core.2.1, hP]
